@@ -21,6 +21,7 @@ type reuseStep struct {
 	Input []byte `json:"input"` // document text for parse steps
 	Copy  bool   `json:"copy"`
 	NoOpt bool   `json:"noopt"` // call without any option (the documented default is to copy strings)
+	ByVal bool   `json:"byval"` // the reuse argument is a value copy of the pooled ParsedJson (ParsedJson is a plain struct)
 	Slot  int    `json:"slot"`  // pool slot whose object is passed as reuse / destination / source (-1: none)
 	Ser   int    `json:"ser"`   // serializer slot
 	Mode  int    `json:"mode"`
@@ -64,6 +65,10 @@ func c15Check(c c15Case) error {
 			var reuse *simdjson.ParsedJson
 			if slot >= 0 {
 				reuse = pool[slot]
+				if st.ByVal && reuse != nil {
+					cp := *reuse
+					reuse = &cp
+				}
 			}
 			// reference: the same call on fresh objects
 			var fresh *simdjson.ParsedJson
@@ -93,6 +98,9 @@ func c15Check(c c15Case) error {
 				// the caller keeps its (possibly scribbled) object; it is only good as a reuse argument now
 				if slot >= 0 {
 					model[slot] = nil
+					if st.ByVal && reuse != nil {
+						pool[slot] = reuse // the copy that was handed in (it still carries the parser state)
+					}
 				}
 				continue
 			}
@@ -432,6 +440,7 @@ func TestC15_Histories(t *testing.T) {
 				}
 				st.Copy = rapid.Bool().Draw(t, "copy")
 				st.NoOpt = rapid.IntRange(0, 2).Draw(t, "noopt") == 0
+				st.ByVal = rapid.IntRange(0, 3).Draw(t, "byval") == 0
 				if st.NoOpt {
 					st.Copy = true // the reference call and the bookkeeping use the default
 				}
